@@ -73,4 +73,17 @@ def pk2 [Inhabited K] [Add K] [Mul K] [OfNat K 0] [OfNat K 1] [LT K] [DecidableL
 def bifVectorsLocal [Inhabited K] [Sub K] (xs ys zs : List K) (v a b : Int) : List K × List K :=
   (vsub (pos xs ys zs a) (pos xs ys zs v), vsub (pos xs ys zs b) (pos xs ys zs v))
 
+/-- **SectionArea**: π · r² of the node's radius (`r ** 2` is `1 · r · r`) -/
+def sectionArea [Inhabited K] [Mul K] [OfNat K 1] (pi : K) (rs : List K) (v : Int) : K :=
+  pi * ((1 : K) * rs.getD v.toNat default * rs.getD v.toNat default)
+
+/-- **Volume** of a compartment (a list of node indices, `[parent, node]`): π · r² · length, the radius read at the node `p` of the compartment the
+`compartment_point` option selects -/
+def volume [Inhabited K] [Add K] [Sub K] [Mul K] [OfNat K 0] [OfNat K 1] (norm : List K → K) (pi : K) (xs ys zs rs : List K) (c : List Int) (p : Int) : K :=
+  pi * ((1 : K) * rs.getD p.toNat default * rs.getD p.toNat default) * branchLength norm xs ys zs c
+
+/-- **Surface** of a compartment: 2 · π · r · length (lateral surface of the cylinder), radius read at the selected node `p` -/
+def surface [Inhabited K] [Add K] [Sub K] [Mul K] [OfNat K 0] (F : Py.Fld K) (norm : List K → K) (pi : K) (xs ys zs rs : List K) (c : List Int) (p : Int) : K :=
+  (Py.Fld.ofInt 2 : K) * pi * rs.getD p.toNat default * branchLength norm xs ys zs c
+
 end LmGeo
